@@ -1747,6 +1747,10 @@ func (b *Bitmap) Flip(start, end uint64) *Bitmap {
 		} else {
 			result.DirectAdd(i)
 		}
+		if i == end {
+			// end may be the maximum uint64, where i <= end never fails
+			break
+		}
 	}
 	//add remaining.
 	for !eof {
